@@ -58,7 +58,41 @@ def _indexed_family(rng, base):
   return out
 
 
-def gen_typed_tree(rng, depth):
+def _variant_groups(rng, dom, names, others):
+  """2..3 child groups under *disjoint* parent values that declare the same
+  child name(s) differently (every branch of a switch brings its own 'size'):
+  each group re-declares 1..2 shared names (a typed leaf or an indexed family,
+  possibly of another length) and may carry further children of its own."""
+  n_groups = rng.randint(2, min(3, len(dom)))
+  vals = list(dom)
+  rng.shuffle(vals)
+  cuts = [[v] for v in vals[:n_groups]]
+  for v in vals[n_groups:]:
+    if rng.random() < 0.6:
+      rng.choice(cuts).append(v)
+  shared = [(names.fresh(), rng.random() < 0.3) for _ in range(rng.randint(1, 2))]
+  groups = []
+  for g, gv in enumerate(cuts):
+    kids = []
+    for nm, family in shared:
+      if g >= 2 and rng.random() < 0.3:
+        continue                                  # this branch does not have it
+      if family:
+        idx = rng.sample(INDEX_POOL[:6], rng.randint(2, 3))
+        kind = rng.choice(['BOOL', 'DISC_INT', 'DISC_FRAC', 'DOUBLE', 'CATEGORICAL', 'INTEGER'])
+        for k in idx:
+          q = _typed_leaf(rng, f'{nm}[{k}]', kind)
+          q['base'], q['index'] = nm, k
+          kids.append(q)
+      else:
+        kids.append(_typed_leaf(rng, nm))
+    kids.extend(others())
+    rng.shuffle(kids)
+    groups.append([sorted(gv, key=lambda v: (str(type(v)), v)), kids])
+  return groups
+
+
+def gen_typed_tree(rng, depth, variants=True):
   """Typed conditional tree; top level (and some child groups) get indexed families."""
   names = cond._Names(rng)  # pylint: disable=protected-access
 
@@ -71,9 +105,12 @@ def gen_typed_tree(rng, depth):
         p = cond._small_parent(rng, name, rng.choice(cond.PARENT_KINDS))  # pylint: disable=protected-access
         dom = cond.domain_values(p)
         groups = []
-        for _g in range(rng.randint(1, 2)):
-          k = 1 if rng.random() < 0.5 else rng.randint(1, min(3, len(dom)))
-          groups.append([sorted(rng.sample(dom, k)), level(d + 1, rng.randint(1, 2))])
+        if variants and len(dom) >= 2 and rng.random() < 0.4:
+          groups = _variant_groups(rng, dom, names, lambda: level(d + 1, rng.randint(0, 1)))
+        else:
+          for _g in range(rng.randint(1, 2)):
+            k = 1 if rng.random() < 0.5 else rng.randint(1, min(3, len(dom)))
+            groups.append([sorted(rng.sample(dom, k)), level(d + 1, rng.randint(1, 2))])
         p['children'] = groups
         out.append(p)
       elif r < 0.75:
@@ -104,7 +141,63 @@ def draw_stored(rng, tree, pybool=0.25):
       c = int(round(v))
       if p['lo'] <= c <= p['hi']:
         choices[n] = c
+  # names declared differently under another parent value: the stored value is
+  # one of the declaration that is active for this trial (such children are leaves)
+  for p, _d in cond.active_walk(tree, choices):
+    if p is not params[p['name']]:
+      choices[p['name']] = _draw_leaf_value(rng, p, pybool)
   return choices
+
+
+def _draw_leaf_value(rng, p, pybool):
+  v = gen.sample_value(rng, p)
+  if p['kind'] in ('INTEGER', 'DISCRETE') and rng.random() < 0.25:
+    v = float(v)
+  elif p['kind'] == 'DISCRETE' and float(v).is_integer() and rng.random() < 0.3:
+    v = int(v)
+  elif p['kind'] == 'BOOL' and rng.random() < pybool:
+    v = (v == 'True')
+  elif p['kind'] == 'DOUBLE' and rng.random() < 0.15:
+    c = int(round(v))
+    if p['lo'] <= c <= p['hi']:
+      v = c
+  return v
+
+
+def active_descs(tree, stored):
+  """{name: description} of the declarations that are active for `stored` (the
+  one under the parent value of this trial when a name is declared repeatedly)."""
+  out = {p['name']: p for p, _d in cond.active_walk(tree, stored) if p['name'] in stored}
+  if len(out) != len(stored):
+    flat = cond.all_params(tree)
+    for n in stored:
+      if n not in out and n in flat:
+        out[n] = flat[n]
+  return out
+
+
+def redeclared_names(tree):
+  """Names (and indexed bases) that carry more than one distinct declaration."""
+  seen = {}
+
+  def rec(plist):
+    for p in plist:
+      sig = repr(sorted((k, repr(v)) for k, v in p.items() if k != 'children'))
+      seen.setdefault(p['name'], set()).add(sig)
+      for _vals, kids in p.get('children', []):
+        rec(kids)
+  rec(tree)
+  out = {n for n, sigs in seen.items() if len(sigs) > 1}
+  # a member of an indexed family that exists in only some branches re-declares the base
+  bases = {}
+  for n in seen:
+    bi = cond.split_indexed(n)
+    if bi:
+      bases.setdefault(bi[0], set()).add(n)
+  for b, members in bases.items():
+    if members & out:
+      out.add(b)
+  return out
 
 
 def active_assignment(tree, choices):
@@ -116,7 +209,7 @@ def active_assignment(tree, choices):
 # ---------------------------------------------------------------------------
 def expected_parameters(tree, stored):
   """{key: (declared, value)} or {base: [(declared, value), ...]} in index order."""
-  params = cond.all_params(tree)
+  params = active_descs(tree, stored)
   scalars = {}
   families = {}
   for name, v in stored.items():
@@ -167,6 +260,11 @@ def compare(ctx, reader, got, tree, stored, case):
   """Checks one presented dict against the expectation. Returns #problems."""
   exp = expected_parameters(tree, stored)
   n_bad = 0
+  redecl = redeclared_names(tree)
+
+  def sfx(key):
+    # the anomaly concerns a name that another parent value declares differently
+    return ':name-redeclared-under-other-parent-value' if key in redecl else ''
   if not isinstance(got, dict) and not hasattr(got, 'keys'):
     ctx.violation(f'presented-not-a-mapping:{reader}', repr(got), case)
     return 1
@@ -197,7 +295,7 @@ def compare(ctx, reader, got, tree, stored, case):
       if any(k >= 10 for k in idx) and any(k < 10 for k in idx):
         ctx.count('multidim_index_ge_10_checked')
       if not isinstance(g, (list, tuple)) or len(g) != len(e):
-        ctx.violation(f'indexed-group-shape:{reader}',
+        ctx.violation(f'indexed-group-shape:{reader}{sfx(key)}',
                       f'{key}: presented {g!r} for {len(e)} indexed parameters', case)
         n_bad += 1
         continue
@@ -214,7 +312,7 @@ def compare(ctx, reader, got, tree, stored, case):
           mech = 'indexed-group-order:other'
         else:
           mech = 'indexed-group-values'
-        ctx.violation(f'{mech}:{reader}',
+        ctx.violation(f'{mech}:{reader}{sfx(key)}',
                       f'{key}: presented {g!r}, expected {[ev for _d, ev in e]} (indices {idx})',
                       case)
         n_bad += 1
@@ -224,15 +322,18 @@ def compare(ctx, reader, got, tree, stored, case):
       pairs = [(g, e)]
     for gv, (d, ev) in pairs:
       ctx.count(f'values_typechecked:{d}')
+      if sfx(key):
+        ctx.count('redeclared_name_values_typechecked')
       if not _value_ok(d, gv, ev):
-        ctx.violation(f'value-differs:{d}:{reader}',
+        ctx.violation(f'value-differs:{d}:{reader}{sfx(key)}',
                       f'{key}: presented {gv!r}, stored {ev!r}', case,
                       {'declared': d})
         n_bad += 1
       elif not _type_ok(d, gv):
-        ctx.violation(f'wrong-presented-type:{d}:as-{type(gv).__name__}:{reader}',
+        ctx.violation(f'wrong-presented-type:{d}:as-{type(gv).__name__}:{reader}{sfx(key)}',
                       f'{key}: presented {gv!r} ({type(gv).__name__}) for a parameter '
-                      f'declared {d}', case, {'stored': repr(ev)})
+                      f'declared {d}' + (' under the parent value of this trial' if sfx(key) else ''),
+                      case, {'stored': repr(ev)})
         n_bad += 1
   return n_bad
 
